@@ -393,7 +393,15 @@ impl Workload for SchedWorkload {
             "align-skf" | "align-seq" | "distance" | "map-skf" | "map-seq" => {
                 let seq_input = kind.ends_with("-seq");
                 let k = if seq_input { 17 } else { crate::gen::pick_k(&mut rng) };
-                let n = if seq_input && rng.chance(30) { rng.range(19, 22) } else { rng.range(2, 8) };
+                // (.skf input: a quarter of the cases with 9..24 samples, so that any way of cutting samples
+                // or pairs into per-thread blocks meets remainders of every size)
+                let n = if seq_input && rng.chance(30) {
+                    rng.range(19, 22)
+                } else if !seq_input && rng.chance(25) {
+                    rng.range(9, 24)
+                } else {
+                    rng.range(2, 8)
+                };
                 let mut o = GenomeOpts::swarm(&mut rng, k);
                 if n > 10 {
                     o.len = o.len.min(3 * k + 60);
